@@ -1104,6 +1104,16 @@ class SCFGIO:
                 queue.extend(edges[current_name])
 
         scfg = SCFG(scfg_graph, name_gen=name_gen)
+        # Restore the object pointers between regions and their sub-graphs,
+        # the dictionary representation only holds names.
+        for region in scfg_graph.values():
+            if isinstance(region, RegionBlock):
+                assert region.subregion is not None
+                object.__setattr__(region, "parent_region", scfg.region)
+                object.__setattr__(region.subregion, "region", region)
+                for inner in region.subregion.graph.values():
+                    if isinstance(inner, RegionBlock):
+                        object.__setattr__(inner, "parent_region", region)
         return scfg
 
     @staticmethod
